@@ -54,7 +54,7 @@ func PathAvoiding(fn *ssa.Function, from ssa.Instruction, isTarget, isAvoid func
 	} else {
 		start = append(start, &state{b: from.Block(), i: InstrIndex(from) + 1})
 	}
-	visited := map[int]bool{}
+	visited := map[[2]int]bool{}
 	queue := start
 	pathOf := func(s *state) []int {
 		var p []int
@@ -83,18 +83,76 @@ func PathAvoiding(fn *ssa.Function, from ssa.Instruction, isTarget, isAvoid func
 		if blocked {
 			continue
 		}
+		// A block that branches on a phi of boolean constants (a flag set
+		// on some predecessors) is followed path-sensitively.
+		only := -1
+		if s.prev != nil && s.i == 0 {
+			only = phiBranch(s.b, s.prev.b)
+		}
 		for si, succ := range s.b.Succs {
+			if only >= 0 && si != only {
+				continue
+			}
 			if cut != nil && cut[Edge{s.b.Index, si}] {
 				continue
 			}
-			if visited[succ.Index] {
+			key := [2]int{succ.Index, -1}
+			if isPhiBranchBlock(succ) {
+				key[1] = s.b.Index
+			}
+			if visited[key] {
 				continue
 			}
-			visited[succ.Index] = true
+			visited[key] = true
 			queue = append(queue, &state{b: succ, i: 0, prev: s})
 		}
 	}
 	return nil, nil
+}
+
+// isPhiBranchBlock reports whether b ends in an If whose condition is a phi
+// of b (possibly negated).
+func isPhiBranchBlock(b *ssa.BasicBlock) bool {
+	if len(b.Instrs) == 0 {
+		return false
+	}
+	iff, ok := b.Instrs[len(b.Instrs)-1].(*ssa.If)
+	if !ok {
+		return false
+	}
+	cond, _ := StripNot(iff.Cond)
+	phi, ok := cond.(*ssa.Phi)
+	return ok && phi.Block() == b
+}
+
+// phiBranch returns the only successor index of b that is feasible when b is
+// entered from pred, if b branches on a phi whose input from pred is a
+// boolean constant; -1 otherwise.
+func phiBranch(b, pred *ssa.BasicBlock) int {
+	if !isPhiBranchBlock(b) {
+		return -1
+	}
+	iff := b.Instrs[len(b.Instrs)-1].(*ssa.If)
+	cond, neg := StripNot(iff.Cond)
+	phi := cond.(*ssa.Phi)
+	for i, p := range b.Preds {
+		if p != pred {
+			continue
+		}
+		k, ok := phi.Edges[i].(*ssa.Const)
+		if !ok || k.Value == nil {
+			return -1
+		}
+		truth := k.Value.String() == "true"
+		if neg {
+			truth = !truth
+		}
+		if truth {
+			return 0
+		}
+		return 1
+	}
+	return -1
 }
 
 // ReachesFrom reports whether target is reachable from right after from.
@@ -490,6 +548,29 @@ func BackSlice(v ssa.Value, opts SliceOpts) map[ssa.Value]bool {
 					// of it) may write it: h.Sum(buf[:0]), json.Unmarshal(&x)
 					for _, call := range addrTakenBy(v) {
 						visit(call)
+					}
+				}
+			}
+		case *ssa.MakeSlice, *ssa.MakeMap:
+			if !opts.NoMemory {
+				// contents written into the fresh container
+				if refs := v.Referrers(); refs != nil {
+					for _, r := range *refs {
+						switch r := r.(type) {
+						case *ssa.IndexAddr:
+							if rr := r.Referrers(); rr != nil {
+								for _, x := range *rr {
+									if st, ok := x.(*ssa.Store); ok && st.Addr == r {
+										visit(st.Val)
+									}
+								}
+							}
+						case *ssa.MapUpdate:
+							if r.Map == v {
+								visit(r.Key)
+								visit(r.Value)
+							}
+						}
 					}
 				}
 			}
